@@ -886,6 +886,11 @@ func runFreeze(kind string, style int) (msg string) {
 	time.Sleep(1100 * time.Millisecond)
 	e, _ := d.Decor(fin)
 	if a == b {
+		if kind != "elapsed" {
+			// current / elapsed with nine decimals, read at least 8 ms apart with the
+			// same current: the true value has dropped by a tenth or more
+			return fmt.Sprintf("average speed of a running bar did not move between two reads at least 8 ms apart (current unchanged, elapsed 50 ms -> 58 ms or more): %q then %q", a, b)
+		}
 		return "" // clock too coarse to tell; nothing observed
 	}
 	if c != b || e != b {
